@@ -482,6 +482,31 @@ func runStoreBehaviourHooked(w *tr.Writer, b storeBehaviour, seed int64, scratch
 			if err == nil {
 				issued[op.Mb] = append(issued[op.Mb], id)
 			}
+		case "addgone":
+			// file store: the content file of the mailbox's oldest message has disappeared (removed behind the store's back);
+			// the delivery that evicts that message through the cap cannot delete it any more - it is a delivery like any other
+			if ms, _ := st.GetMessages(name); len(ms) > 0 {
+				want := ms[0].ID() + ".raw"
+				_ = filepath.Walk(dir, func(p string, info os.FileInfo, err error) error {
+					if err == nil && !info.IsDir() && filepath.Base(p) == want {
+						_ = os.Remove(p)
+					}
+					return nil
+				})
+			}
+			meta := mkMeta(rng, op.Meta, name)
+			body := mkBody(rng, op.Size)
+			id, err := st.AddMessage(&message.Delivery{Meta: meta, Reader: bytes.NewReader(body)})
+			ev["r"], ev["id"], ev["size"] = errClass(err), id, len(body)
+			if err != nil {
+				ev["r"] = "err"
+			}
+			written := tr.ProjectMsg(&message.Delivery{Meta: meta, Reader: bytes.NewReader(body)})
+			written.Meta.Hash = tr.HashBytes(body)
+			ev["meta"] = written.Meta
+			if err == nil {
+				issued[op.Mb] = append(issued[op.Mb], id)
+			}
 		case "listfault":
 			// the mailbox is listed while the process cannot open any further file (RLIMIT_NOFILE = 0, as under descriptor
 			// exhaustion): an error is an answer, a wrong listing is not
